@@ -1,5 +1,6 @@
 import PyXABModel.Drv.Util
 import PyXABModel.Drv.TreeBandit
+import PyXABModel.Drv.Sweep
 namespace PyXAB.Drv
 
 inductive DState where
@@ -7,6 +8,10 @@ inductive DState where
   | part (P : Part Float Unit)
   | hoo (d : HooD)
   | hct (d : HctD)
+  | soo (d : SooD)
+  | doo (d : DooD)
+  | sto (d : StoD)
+  | sq (d : SqD)
 
 def runRd {β} (r : Rd β) (toks : List String) : Except String β :=
   match r.run toks with
@@ -50,6 +55,26 @@ def algoStep (st : DState) (cmd : String) (args : List String) : DState × Strin
     | .ok (.ok d, note) => (.hct d, note)
     | .ok (.error e, _) => (.none, s!"ERR {errName e}")
     | .error e => (.none, s!"bad-op {e}")
+  | "SOO.init", _ =>
+    match sooInit args with
+    | .ok d => (.soo d, "ok")
+    | .error e => (.none, s!"bad-op {e}")
+  | "DOO.init", _ =>
+    match dooInit args with
+    | .ok d => (.doo d, "ok")
+    | .error e => (.none, s!"bad-op {e}")
+  | "StoSOO.init", _ =>
+    match stoInit args with
+    | .ok (d, note) => (.sto d, note)
+    | .error e => (.none, s!"bad-op {e}")
+  | "SequOOL.init", _ =>
+    match sqInit args with
+    | .ok (d, note) => (.sq d, note)
+    | .error e => (.none, s!"bad-op {e}")
+  | _, .soo d => let (d', o) := sooStep d cmd args; (.soo d', o)
+  | _, .doo d => let (d', o) := dooStep d cmd args; (.doo d', o)
+  | _, .sto d => let (d', o) := stoStep d cmd args; (.sto d', o)
+  | _, .sq d => let (d', o) := sqStep d cmd args; (.sq d', o)
   | _, .hoo d => let (d', o) := hooStep d cmd args; (.hoo d', o)
   | _, .hct d => let (d', o) := hctStep d cmd args; (.hct d', o)
   | _, _ => (st, "bad-op no-state")
